@@ -209,6 +209,8 @@ class Check:
                     continue
                 if not clause.startswith(k["clause"]):
                     continue
+                if k.get("clause_contains") and k["clause_contains"] not in clause:
+                    continue
                 if not _trigger_holds(k.get("trigger", {}), ctx):
                     continue
                 hit = i
